@@ -7,7 +7,7 @@ SPEC = dict(
               "C11_dispatch_hit_mem", "C11_dispatch_miss", "C11_prop_of_model"],
     # one case = one in-VM contract call; a contract (1-12 methods + 3-5 unknown names) costs one package build
     # (~15-25 s: the contract is compiled twice by forc-test) => quick = corpus (2 contracts) + ~4 random contracts
-    steps=[dict(bin="sv_c11", area="c11", n_quick=60, n_thorough=280, corpus="corpus/c11.txt",
+    steps=[dict(bin="sv_c11", area="c11", n_quick=60, n_thorough=900, corpus="corpus/c11.txt",
                 dist_keys=("hit", "fb", "via", "nmeth", "shared", "maxgroup", "table_ok"),
                 nontrivial=lambda case, impl, kv: kv.get("nmeth", "1") != "1" or kv.get("hit") == "0",
                 timeout=2400)],
